@@ -13,6 +13,7 @@ import (
 	"github.com/ClickHouse/ch-go"
 
 	"chgosim/choice"
+	"chgosim/refproto"
 	"chgosim/sched"
 	"chgosim/simnet"
 )
@@ -116,7 +117,33 @@ func c10Run(t *testing.T, c *choice.Stream, r *Result, opt RunOpt, forced *c10Fo
 		}
 		cf := DrawConf(scs)
 		sc := drawQueryScenario(scs, cf)
+		// A server that keeps streaming: progress packets paced closer together than
+		// the read timeout, for much longer than the bound. Only the cancellation
+		// can end such a query early; a client that looks at its context only when
+		// a read times out would follow the stream to its end.
+		streaming := forced == nil && sc.kind == "select" && c.Bool("streaming", 1, 6)
+		var cancelAtTime time.Duration
+		if streaming {
+			cut := sc.afterHandshake + 2 // after the Query and the external-data terminator
+			script := append([]simnet.Step{}, sc.script[:cut]...)
+			gap := time.Duration(c.Pick("stream.gap.ms", 5, 100, 400)) * time.Millisecond
+			if gap >= cf.EffReadTimeout() {
+				gap = cf.EffReadTimeout() / 3
+			}
+			n := int(40 * time.Second / gap)
+			if n > 400 {
+				n = 400
+			}
+			pk := (&SPacket{Kind: "progress", Prog: refproto.Progress{Rows: 1, Bytes: 10}}).Encode(cf)
+			for i := 0; i < n; i++ {
+				script = append(script, simnet.Step{Label: "progress", Send: pk, Delay: gap})
+			}
+			script = append(script, simnet.Step{Label: "eos", Send: (&SPacket{Kind: "eos"}).Encode(cf)})
+			sc.script = script
+			cancelAtTime = time.Duration(c.Range("stream.cancel.ms", 100, 4000)) * time.Millisecond
+		}
 		info.scriptLen, info.qStart = len(sc.script), sc.afterHandshake
+		e.Sim.MaxSteps = 400000
 		e.Sim.DrawStrategy()
 		stallProb := e.Sim.StallProb
 		e.Sim.StallProb = 0 // no simulator-made delay while the hello is awaited (the hello deadline is C13's subject)
@@ -137,6 +164,10 @@ func c10Run(t *testing.T, c *choice.Stream, r *Result, opt RunOpt, forced *c10Fo
 		pScript := sc.afterHandshake + c.Draw("gate.script", len(sc.script)-sc.afterHandshake+1)
 		sStep := c.Draw("gate.step", 900)
 		silence := c.Bool("silence", 1, 2)
+		if streaming {
+			useDeadline, gateName, silence = false, "time", false
+			pScript = sc.afterHandshake
+		}
 		forcedCb, forcedJ := "", 0
 		if forced != nil {
 			useDeadline = false
@@ -207,6 +238,8 @@ func c10Run(t *testing.T, c *choice.Stream, r *Result, opt RunOpt, forced *c10Fo
 					switch gateName {
 					case "none":
 						return false
+					case "time":
+						return e.Sim.Now() >= cancelAtTime
 					case "handshake":
 						return true
 					case "bytes":
